@@ -5,7 +5,9 @@
      retryCount (consecutive non-advancing records).
    Modelled: readFromUntil / atLeastReader (fill), readRecordOrCCS (header checks, maxCiphertext,
    decryption result, maxPlaintext, the record-type switch, retryReadRecord), readHandshake (the
-   two waiting loops, maxHandshake), the hand check of Conn.Read after completion (fix F8).
+   two waiting loops, maxHandshake), the hand checks of Conn.Read after completion (fix F8, and
+   46481b8 for the read-ahead call).  The connection-wide latch c.fatal (46481b8) adds nothing to
+   the input side: every error of the read half already ends the machine (t_alive = false).
    Abstract (arguments over which every theorem quantifies):
      - record protection: [dec cipher_on typ body] = the plaintext, or None for bad_record_mac;
      - the handshake layer above readHandshake / readChangeCipherSpec: a state of any type S with
@@ -149,16 +151,18 @@ Section Machine.
         end
     end.
 
-  (* after readRecordOrCCS returned: readHandshake goes on; the read loop of Conn.Read refuses
-     handshake bytes (fix F8); its read-ahead call at the end does not look at c.hand *)
+  (* after readRecordOrCCS returned: readHandshake goes on; Conn.Read refuses handshake bytes after
+     both of its readRecord calls: the read loop (fix F8) and the read-ahead call at its end
+     (46481b8: the error is returned together with the n bytes already delivered) *)
   Definition after_return (before : want) (c : tconn) : tconn :=
     if negb (t_alive c) then c else
     match t_want c with
     | WMsg => drive (Datatypes.S (length (t_hand c))) c
     | WCcs => c
     | WApp =>
-        if t_peek c then set_flags c (t_armed c) false
-        else if want_eqb before WApp && negb (empty (t_hand c)) then kill c else c
+        if want_eqb before WApp && negb (empty (t_hand c)) then kill c     (* no_renegotiation, latched in c.fatal *)
+        else if t_peek c then set_flags c (t_armed c) false
+        else c
     end.
 
   (* Conn.Read decides which of its two readRecord calls takes the next record: the read-ahead
